@@ -325,6 +325,13 @@ func registerHarnessIntrinsics() {
 		in.env.accepts = append(in.env.accepts, feedItem{kind: "error", err: e})
 		return nil, true
 	})
+	reg("vEnvAcceptTempErr", func(in *Interp, fr *frame, args []Value) (Value, bool) {
+		e := in.newError(CStr("accept tcp: accept4: too many open files"), nil)
+		errObj(e).F["Temporary"] = true
+		in.env.accepts = append(in.env.accepts, feedItem{kind: "error", err: e})
+		in.emit("env.accept-error")
+		return nil, true
+	})
 	reg("vEnvAcceptCall", func(in *Interp, fr *frame, args []Value) (Value, bool) {
 		in.env.accepts = append(in.env.accepts, feedItem{kind: "call", fn: args[0]})
 		return nil, true
